@@ -4,6 +4,11 @@ from statham.schema.exceptions import ValidationError
 from statham.schema.validation.base import Validator
 
 
+# From this magnitude on every float is an integer, so float division
+# can no longer tell whether a quotient is integral.
+_MIN_INTEGRAL_FLOAT = 2 ** 52
+
+
 class Minimum(Validator):
     """Validate that numeric values conform to a minimum."""
 
@@ -61,14 +66,18 @@ class MultipleOf(Validator):
 
     def _validate(self, value: Any):
         multiple_of = self.params["multipleOf"]
+        is_multiple = None
         try:
             if isinstance(multiple_of, float):
                 quotient = value / multiple_of
-                is_multiple = int(quotient) == quotient
+                if max(abs(value), abs(quotient)) < _MIN_INTEGRAL_FLOAT:
+                    is_multiple = int(quotient) == quotient
             else:
                 is_multiple = not value % multiple_of
         except OverflowError:
-            # Outside the float range: decide with exact arithmetic.
+            pass
+        if is_multiple is None:
+            # Outside the float range or precision: use exact arithmetic.
             is_multiple = not Fraction(value) % Fraction(multiple_of)
         if not is_multiple:
             raise ValidationError
